@@ -207,6 +207,43 @@ func runC06(r *Run) {
 					return true
 				}
 			}
+			// an unexported function that only the allowed functions use (a named callback or helper of theirs) is part of them
+			base := strings.TrimSuffix(strings.TrimSuffix(fname(c), "$bound"), "$thunk")
+			if bf := p.Fn(base); bf != nil && bf.Object() != nil && !bf.Object().Exported() {
+				users, okAll := 0, true
+				for _, h := range sortedFns(p.Fns) {
+					if !inRepo(h) || h.Blocks == nil || strings.HasPrefix(fname(h), base) {
+						continue
+					}
+					allInstrs(h, func(ins ssa.Instruction) {
+						refs := false
+						if sc := staticCallee(ins); sc != nil && strings.HasPrefix(fname(sc), base) {
+							refs = true
+						}
+						for _, op := range ins.Operands(nil) {
+							if f, isF := (*op).(*ssa.Function); isF && strings.HasPrefix(fname(f), base) {
+								refs = true
+							}
+						}
+						if !refs {
+							return
+						}
+						users++
+						in := false
+						for _, n := range names {
+							if fname(topFn(h)) == n {
+								in = true
+							}
+						}
+						if !in {
+							okAll = false
+						}
+					})
+				}
+				if users > 0 && okAll {
+					return true
+				}
+			}
 			return false
 		}
 	}
